@@ -45,6 +45,10 @@ def make(kind):
         return converters.get_converter(cattrs.Converter(prefer_attrib_converters=True))
     if kind == "omitdefault":
         return converters.get_converter(cattrs.Converter(omit_if_default=True))
+    if kind.startswith("kw:"):
+        # a keyword option of get_converter() itself, discovered from its signature: get_converter(<name>=<flipped default>)
+        name, val = kind[3:].split("=", 1)
+        return converters.get_converter(**{name: json.loads(val)})
     if kind == "interrupted-first":
         # the process's first get_converter() is interrupted part-way through forward-reference resolution (Ctrl-C, here: the 50th call of
         # attrs.resolve_types raises KeyboardInterrupt once); the application catches it and asks again: that converter must be a normal one
@@ -130,7 +134,13 @@ def battery(conv):
             out.append([cls.__name__, "ok", repr(obj)[:300], json.dumps(conv.unstructure(obj), sort_keys=True, default=str)])
         except Exception as e:  # noqa
             out.append([cls.__name__, "raise", type(e).__name__])
-    # constructor path
+    # constructor path: out-of-range values must be rejected whatever other converters exist or are doing
+    for label, f in (("ctor-invalid", lambda: T.Position(line=-1, character=0)), ("ctor-invalid", lambda: T.Position(line=2**31, character=0)), ("ctor-invalid", lambda: T.Diagnostic(range=None, message=5))):
+        try:
+            f()
+            out.append([label, "accepted"])
+        except Exception as e:  # noqa
+            out.append([label, "raise", type(e).__name__])
     try:
         out.append(["ctor", json.dumps(conv.unstructure(T.SignatureHelpResponse(id=1)), sort_keys=True)])
         out.append(["ctor", json.dumps(conv.unstructure(T.OptionalVersionedTextDocumentIdentifier(uri="u")), sort_keys=True)])
@@ -140,10 +150,76 @@ def battery(conv):
     return out
 
 
+def keyword_toggles():
+    """Boolean keyword options of get_converter(), each flipped (none on the pinned tree: the signature is (converter=None))."""
+    import inspect
+    from lsprotocol import converters
+
+    out = []
+    for name, p in inspect.signature(converters.get_converter).parameters.items():
+        if isinstance(p.default, bool):
+            out.append(f"kw:{name}={json.dumps(not p.default)}")
+    return out
+
+
+def during(spec):
+    """Thread A is parked INSIDE a structure() call of a converter of each configuration (its payload is a dict whose first access blocks);
+    thread B meanwhile creates a fresh converter and runs the battery, and once more after A has finished."""
+    import lsprotocol.types as T
+
+    res = {}
+    for kind in spec["during"]["kinds"] + keyword_toggles():
+        started, release = threading.Event(), threading.Event()
+
+        class Blocking(dict):
+            def _park(self):
+                if not started.is_set():
+                    started.set()
+                    release.wait(20)
+
+            def __getitem__(self, k):
+                self._park()
+                return dict.__getitem__(self, k)
+
+            def __contains__(self, k):
+                self._park()
+                return dict.__contains__(self, k)
+
+            def get(self, k, d=None):
+                self._park()
+                return dict.get(self, k, d)
+
+            def __iter__(self):
+                self._park()
+                return dict.__iter__(self)
+
+        out = {}
+
+        def run_a():
+            try:
+                c = make(kind)
+                c.structure(Blocking(line=1, character=2), T.Position)
+                out["A"] = "ok"
+            except Exception as e:  # noqa
+                out["A"] = f"raise {type(e).__name__}"
+
+        ta = threading.Thread(target=run_a)
+        ta.start()
+        out["parked"] = started.wait(20)
+        out["B_during"] = battery(make("fresh"))
+        release.set()
+        ta.join(60)
+        out["B_after"] = battery(make("fresh"))
+        res[kind] = out
+    return res
+
+
 def main():
     spec = json.loads(sys.argv[1])
     res = {}
-    if spec.get("preempt") is not None:
+    if spec.get("during") is not None:
+        res = {"during": during(spec)}
+    elif spec.get("preempt") is not None:
         res = preempt(spec)
     else:
         convs = []
